@@ -242,6 +242,11 @@ def run_family(idxs, items, seed, stats, fails, is_first):
     rs = g[1]
     try:
         for idx, x in items:
+            if _TIMEOUTS_SEEN[0] >= 12:
+                # non-termination is established (12 inputs timed out in this worker): the remaining
+                # inputs of the task are not run -- the violation is reported, the run must end
+                stats['skipped_after_timeouts'] = stats.get('skipped_after_timeouts', 0) + 1
+                continue
             forms = ('str', 'lines', 'file') if idx % 10 == seed % 10 else ('str',)
             if is_first:
                 stats['evaluations'] += 1
